@@ -2,9 +2,12 @@ package main
 
 import (
 	"encoding/binary"
+	"errors"
 	"fmt"
+	"strings"
 
 	"github.com/nspcc-dev/neo-go/pkg/config"
+	"github.com/nspcc-dev/neo-go/pkg/core"
 	"github.com/nspcc-dev/neo-go/pkg/core/fee"
 	"github.com/nspcc-dev/neo-go/pkg/core/interop/interopnames"
 	"github.com/nspcc-dev/neo-go/pkg/core/transaction"
@@ -88,7 +91,7 @@ func scriptLines(o *hx.Out, r *prng.R, script []byte) {
 }
 
 // witnessLines: size and VM cost of (inv, ver) on the real code + oracle Calculate == VM, size == encoding.
-func witnessLines(o *hx.Out, k int, tag string, tx *transaction.Transaction, inv, ver []byte, canonical bool) {
+func witnessLines(o *hx.Out, k int, tag string, tx *transaction.Transaction, inv, ver []byte, canonical bool, validPairs []byte) {
 	w := pureWorld()
 	wit := transaction.Witness{InvocationScript: inv, VerificationScript: ver}
 	enc := wit.Bytes()
@@ -102,7 +105,28 @@ func witnessLines(o *hx.Out, k int, tag string, tx *transaction.Transaction, inv
 	if modelOpcodes(inv) && modelOpcodes(ver) {
 		o.Line(fmt.Sprintf("wcost %d %d %s %s", base, b2i(w.gorgon()), hx.Hex(inv), hx.Hex(ver)), obs)
 	}
-	o.Count("wcost:" + tag + ":" + st)
+	// the same witness through VerifyWitness with plenty of gas: only MaxVerificationGas can stop it
+	if canonical && modelOpcodes(inv) && modelOpcodes(ver) {
+		const plenty = int64(1) << 50
+		h160 := hash.Hash160(ver)
+		used, err := w.bc.VerifyWitness(h160, tx, &wit, plenty)
+		vobs := "fail"
+		switch {
+		case err == nil:
+			vobs = fmt.Sprintf("ok %d", used)
+		case errors.Is(err, core.ErrInvalidSignature):
+			vobs = fmt.Sprintf("invsig %d", used)
+		}
+		o.Line(fmt.Sprintf("vw %d %d %d 1 %d %s %s %s", base, w.bc.GetMaxVerificationGAS(), b2i(w.gorgon()), plenty, hx.Hex(validPairs), hx.Hex(inv), hx.Hex(ver)), vobs)
+		f, _ := fee.Calculate(base, ver)
+		if st == "halt" && f > w.bc.GetMaxVerificationGAS() {
+			o.Count("vw:above-max-verification-gas")
+			if err == nil {
+				o.Fail("max-verification-gas", k, "%s: witness costing %d verified although MaxVerificationGas is %d", tag, f, w.bc.GetMaxVerificationGAS())
+			}
+		}
+	}
+	o.Count("wcost:" + strings.SplitN(tag, ":", 2)[0] + ":" + st)
 	// the property's oracle on the real code: for a standard contract the calculator's value is what
 	// the VM charges, and its size part is the length of the encoded witness.
 	if scparser.IsStandardContract(ver) {
@@ -126,7 +150,7 @@ func doSig(o *hx.Out, k int, r *prng.R, p *keys.PrivateKey) {
 	scriptLines(o, r, script)
 	tx := dummyTx(hash.Hash160(script))
 	sig := p.SignHashable(uint32(pureWorld().magic), tx)
-	witnessLines(o, k, "sig", tx, pushData1(sig), script, true)
+	witnessLines(o, k, "sig", tx, pushData1(sig), script, true, append(p.PublicKey().Bytes(), sig...))
 	o.Count("kind:sig")
 }
 
@@ -148,7 +172,7 @@ func doMultisig(o *hx.Out, k int, r *prng.R, m int, ks []*keys.PrivateKey) {
 	// sign with a random m-subset of the keys (ascending)
 	which := subset(r, len(ks), m)
 	sigs := a.sigs(pureWorld().magic, tx, which)
-	witnessLines(o, k, "multisig", tx, invocation(sigs), script, true)
+	witnessLines(o, k, "multisig", tx, invocation(sigs), script, true, pairsOf(a, which, sigs))
 	o.Seen(fmt.Sprintf("ms/%d/%d", m, len(ks)))
 	switch {
 	case len(ks) <= 16:
@@ -256,7 +280,7 @@ func doVariant(o *hx.Out, k int, r *prng.R, m int, ks []*keys.PrivateKey, mForm,
 	which := subset(r, len(ks), mm)
 	sigs := a.sigs(pureWorld().magic, tx, which)
 	tag := fmt.Sprintf("variant:m%d:n%d:%s", mForm, nForm, mut)
-	witnessLines(o, k, tag, tx, invocation(sigs), script, false)
+	witnessLines(o, k, tag, tx, invocation(sigs), script, false, nil)
 	o.Count("kind:variant")
 	o.Count("variant:" + mut)
 	if scparser.IsMultiSigContract(script) {
